@@ -202,7 +202,7 @@ func TestVerifC02(t *testing.T) {
 	// 3. every codeword count 0..1561 (all 24 capacity boundaries included) in several compositions
 	reps := 1
 	if thorough {
-		reps = 6
+		reps = 10
 	}
 	for k := 0; k <= 1561; k++ {
 		for i := 0; i < reps; i++ {
@@ -240,7 +240,7 @@ func TestVerifC02(t *testing.T) {
 	// 4. random contents
 	nRandom := 2500
 	if thorough {
-		nRandom = 150000
+		nRandom = 600000
 	}
 	for i := 0; i < nRandom; i++ {
 		var n int
